@@ -76,6 +76,17 @@ CLAIMED = {
         "of the code under test.",
         "Hypothesis soup + grammar round-trip + exhaustive small forests + atheris; round-trip / invariant / brute-force reference oracles",
     ),
+    "C11": (
+        "Every arrangement of <=2/3 footnote definitions over 4 labels x every sequence of <=3 references (exhaustive), "
+        "Hypothesis documents (11 labels incl. numeric, upper-case and superscript-digit ones, undefined labels, "
+        "duplicates, unreferenced, references inside definitions, definitions in quotes / list items / admonitions) "
+        "under footnote_sort x footnote_transition, through docutils and the in-process Sphinx reader; reference model "
+        "of numbering, per-reference target / displayed number / backrefs, placement and order of collected footnotes, "
+        "transition, exact [ref.footnote] warning multiset with lines, no text lost; bounded search.",
+        "Numbering order asserted only with sorting enabled (statement ambiguous otherwise); undefined-label references "
+        "and dropped duplicates' text are don't-care.",
+        "exhaustive small arrangements + Hypothesis; reference-model oracle (numbering, placement, warning multiset)",
+    ),
     "C20": (
         "Hypothesis documents in which every raw-capable construct (HTML block / inline in several contexts, raw "
         "directive, raw-derived roles from MyST and from eval-rst, hard break, strikethrough, HTML substitution, "
